@@ -21,6 +21,7 @@ structure St where
   outs : Array (Exch Resp) := #[]
   calls : Array (String × Headers) := #[]   -- url token, headers
   res : Option (ORes Resp × String) := none -- observed result, class name ("" if none)
+  parsed : Option (Option Str × Option Str) := none  -- what the real urlparse(url) answered: hostname, port
   bad : List String := []
 
 def str (t : String) : Str := ((tokStr t).getD "?").toList
@@ -56,6 +57,8 @@ def step (st : St) (toks : List String) : St :=
       match clsId c with
       | some i => { st with outs := st.outs.push (.exc i (optNat s)) }
       | none => { st with bad := st.bad ++ [s!"unknown-class {c}"] }
+  | ["parse", h, p] =>
+      { st with parsed := some (if h = "none" then none else some (str h), if p = "-" then none else some p.toList) }
   | ["call", u, h] => { st with calls := st.calls.push (u, parseHeaders h) }
   | ["res", "ret", s, h, b] => { st with res := some (.ret (s.toNat!, h, b), "") }
   | ["res", "err", c, comm, conn, s] => { st with res := some (.err (comm == "T") (conn == "T") (optNat s), c) }
@@ -86,6 +89,14 @@ def finish (st : St) : Bool × Bool × List String :=
     let notes := st.calls.toList.foldl (fun ns c =>
         if c.1 = urlTok && c.2 = hdrs then ns
         else ns ++ [s!"call impl[{c.1} {fmtHeaders c.2}] model[{urlTok} {fmtHeaders hdrs}]"]) notes
+    -- the urlparse assumption, and the text-level `_fixed_host_header` on what urlparse really answered
+    let notes := match st.parsed with
+      | none => notes
+      | some (ph, pp) =>
+        let notes := if ph = some (urlparseHostname u) && pp = urlparsePort u then notes
+          else notes ++ [s!"urlparse impl[{ph.map String.ofList} {pp.map String.ofList}] assumed[{String.ofList (urlparseHostname u)} {(urlparsePort u).map String.ofList}]"]
+        if fixedHostText u.render ph pp = fixedHost u then notes
+          else notes ++ [s!"fixedHostText≠fixedHost for {String.ofList u.render}"]
     let iobs : Obs Resp := { result := ires, attempts := st.calls.size }
     let j1 := resultOk tables st.session outs iobs
     let j2 := st.calls.toList.all fun c => hostOk u c.2
